@@ -85,13 +85,16 @@ bool splinetable<Alloc>::write_key(const char* key, const T& value){
 	//reads cards named HISTORY or CONTINUE back as commentary without a value,
 	//and ends the header at a card named END. A card named EXTNAME or HDUNAME in
 	//the primary header gives the coefficient image a name, and read_fits looks
-	//the knot and extent images up by name starting at the primary HDU.
+	//the knot and extent images up by name starting at the primary HDU. A card
+	//named PCOUNT or GCOUNT makes cfitsio take the primary array for a group
+	//structure, after which the coefficients cannot be written.
 	if(keylen==1 || key[0]==' ' || key[keylen-2]==' ')
 		throw std::runtime_error("FITS header keywords must not be empty or begin "
 								 "or end with a blank (key was '"+std::string(key)+"')");
 	if(strncmp("HIERARCH ",key,9)==0 || strcmp("END",key)==0 ||
 	   strcmp("HISTORY",key)==0 || strcmp("CONTINUE",key)==0 ||
-	   strcmp("EXTNAME",key)==0 || strcmp("HDUNAME",key)==0)
+	   strcmp("EXTNAME",key)==0 || strcmp("HDUNAME",key)==0 ||
+	   strcmp("PCOUNT",key)==0 || strcmp("GCOUNT",key)==0)
 		throw std::runtime_error("Cannot set key with reserved name "+std::string(key));
 	size_t maxdatalen=68; //valid for short keys
 	if(keylen<=9){ //up to 8 bytes of data
